@@ -43,6 +43,9 @@ type xferScn struct {
 	// ("written": everything is in the socket buffer back to back, as when a runtime unblocks a plugin's Mux
 	// late) or until a payload of a MiB or more is on its way ("big").  Unix socketpair only.
 	Blocked string `json:"blocked,omitempty"`
+	// LateReaders: the application's readers start only when every writer has finished: the frames wait in the
+	// connections' queues, up to the configured queue length (the credits), also far above the default length
+	LateReaders bool `json:"latereaders,omitempty"`
 }
 
 // blockedWait: a blocked scenario is unblocked after this time at the latest (the socket buffer was too
@@ -272,6 +275,19 @@ func execXfer(s *xferScn, maxp int) *xferObs {
 		err string
 	}
 	reads := [2]map[uint32]*readState{{}, {}} // indexed by direction
+	readersGo, writersDone := make(chan struct{}), make(chan struct{})
+	if s.LateReaders {
+		go func() {
+			select {
+			case <-writersDone:
+			case <-time.After(blockedWait):
+				early.Store(true) // the writers ran out of credits: the generator asked for more than the queue holds
+			}
+			close(readersGo)
+		}()
+	} else {
+		close(readersGo)
+	}
 	var rwg sync.WaitGroup
 	for d := 0; d < 2; d++ {
 		for _, id := range s.IDs {
@@ -280,6 +296,7 @@ func execXfer(s *xferScn, maxp int) *xferObs {
 			rwg.Add(1)
 			go func(d int, id uint32, rs *readState) {
 				defer rwg.Done()
+				<-readersGo
 				cn := conns[1-d][id]
 				buf := make([]byte, bufSize)
 				end := endMarker(id)
@@ -350,6 +367,7 @@ func execXfer(s *xferScn, maxp int) *xferObs {
 	finished := make(chan struct{})
 	go func() {
 		wwg.Wait()
+		close(writersDone)
 		// end markers, one per connection and direction
 		for side := 0; side < 2; side++ {
 			for _, id := range s.IDs {
